@@ -323,7 +323,7 @@ void directedNullConstraintMultipliers(pbt::Ctx& ctx) {
 
 pbt::Config config() {
     pbt::Config c; c.prop = "C16"; c.K = mbgen::K; c.minUnits = 1;
-    c.quick = {2000, 12000, 60, 20}; c.thorough = {20000, 100000, 72, 100};
+    c.quick = {2000, 12000, 60, 20}; c.thorough = {10000, 100000, 72, 100};
     c.rule = "rapidcheck tape -> one model (mbgen tree 1..6 bodies without Weld, some locked by default; 1..8 forcegen force elements incl. all position-only/cached ones, Gravity, LinearBushing; 0..3 constraints Rod/Ball/ConstantSpeed) and a history of <= 40 operations on one State (force parameter setters, force/constraint enable/disable, setSpeed, q/u/z/time changes, realize(stage k), lock/lockAt/unlock, Euler toggle, query); at each query and at the end all Acceleration-stage results are compared with a fresh State given the same values. Non-trivial: the history contains a value change made when the State was realized at or above the stage that change invalidates (followed by the final realization); distinct by tape hash.";
     c.assumptions = {"q,u,z,t and lock values are read back from the history State (they are its current values); force parameters come from the model of the public setters", "comparison tolerance 1e-12 x group scale (observed: bitwise equal apart from denormal noise; both-NaN counts as equal)",
                      "Weld mobilizers are excluded (constraints between relatively immobile bodies are C08's finding)"};
